@@ -94,8 +94,9 @@ def m_init():
     return (None, None, None)
 
 
-def m_enabled(state):
-    ops = [("open", 0), ("open", 1), ("open", 2), ("list",)]
+def m_enabled(state, third=True):
+    """Menu, simplest first. third=False: the third session (T,S2) may not be opened (deepest thorough level)."""
+    ops = [("open", 0), ("open", 1), ("open", 2), ("list",)] if third else [("open", 0), ("open", 1), ("list",)]
     for si in range(3):
         if state[si] is None:
             continue
@@ -646,14 +647,14 @@ FULL_ALL = True
 
 def _expand(item):
     """item = (parent op sequence, indices of enabled ops whose successor state is new)."""
-    seq, newidx = item
+    seq, newidx, third = item
     state = m_init()
     for op in seq:
         state, _ = m_step(state, op)
     viol = {}
     calls = evals = txn = nontriv = n = taint = 0
     outcomes = set()
-    for idx, op in enumerate(m_enabled(state)):
+    for idx, op in enumerate(m_enabled(state, third)):
         full = FULL_ALL or idx in newidx
         vs, (c, e, oc, t, nt, tn) = run_case(NAMES, list(seq) + [op], full)
         taint += tn
@@ -679,7 +680,10 @@ def run(ctx):
     depth = 4 if ctx.quick else 6
     full_depth = 4 if ctx.quick else 5  # transitions at depth <= full_depth get the full observation;
     # deeper ones get it when the successor model state is new, the medium observation otherwise
-    ctx.rule = ("BFS over operation sequences {open x3 sessions (T,S),(S,T),(T,S2); list; store x sessions x 2 directions x "
+    ctx.rule = ("depth %d%s; " % (depth, "" if ctx.quick else " (depth 5 over all three sessions with the full observation everywhere; depth 6 "
+                "over the mirror pair (T,S),(S,T) only, full observation where the successor model state is new, "
+                "loading paths + widest range queries + unfiltered get_all_msgs otherwise)") +
+                "BFS over operation sequences {open x3 sessions (T,S),(S,T),(T,S2); list; store x sessions x 2 directions x "
                 "n in {1,2,3,7,2^40} x 2 payloads; set_seq_num x sessions x {None,1,2,3,8}^2} with the reference model state as "
                 "dedup key; every (model state, op) pair up to the depth is executed on a fresh in-memory Journaler by replaying "
                 "the representative sequence; after it both loading paths, the widest range query per (session,direction), and "
@@ -694,11 +698,14 @@ def run(ctx):
     last_level = level
     for dpt in range(1, depth + 1):
         FULL_ALL = dpt <= full_depth
+        third = dpt <= full_depth  # deepest thorough level: only the mirror pair (T,S),(S,T)
+        if not third:
+            level = [x for x in level if x[1][2] is None]
         items = []
         nxt = []
         for seq, state in level:
             newidx = []
-            for idx, op in enumerate(m_enabled(state)):
+            for idx, op in enumerate(m_enabled(state, third)):
                 s2, _ = m_step(state, op)
                 k = m_key(s2)
                 if k not in seen:
@@ -706,7 +713,7 @@ def run(ctx):
                     newidx.append(idx)
                     if dpt < depth:
                         nxt.append((seq + (op,), s2))
-            items.append((seq, frozenset(newidx)))
+            items.append((seq, frozenset(newidx), third))
         res = ctx.pmap(_expand, items, chunk=max(1, min(64, len(items) // (ctx.workers * 6) or 1)))
         ltr = 0
         for (n, calls, evals, txn, nontriv, outcomes, viols, taint) in res:
@@ -720,6 +727,7 @@ def run(ctx):
             ctx.outcomes.update(tuple(o) for o in outcomes)
             ctx.merge_violations(viols)
         per_level.append({"depth": dpt, "new_states": len(nxt) if dpt < depth else None, "transitions": ltr,
+                          "sessions": 3 if third else "2 (mirror pair only)",
                           "observation": "full" if FULL_ALL else "full on new states, medium otherwise"})
         if nxt:
             last_level = nxt
